@@ -1,0 +1,12 @@
+//go:build !verif
+// +build !verif
+
+package massdb_v1
+
+// Verification hooks (see /verif): no-ops unless built with the "verif" tag.
+
+func verifCacheOverride(hm *HashMap, cache *MemCache, requiredMem uint64) bool { return false }
+
+func verifPoint(mdb *MassDBV1, name string) {}
+
+func verifMapABuf(mdb *MassDBV1, n int) int { return n }
